@@ -500,6 +500,18 @@ func ruleR8_3(r *Run) {
 						break
 					}
 					okT = true
+				case *ssa.Parameter:
+					// a helper handed the ancestry that starts at the version: table of anc, stored under anc[0]
+					if kl, ok := key.(*ssa.UnOp); ok {
+						if ia, ok := kl.X.(*ssa.IndexAddr); ok && ia.X == ssa.Value(a) {
+							if k, isK := constInt(ia.Index); isK && k == 0 {
+								okT = true
+							}
+						}
+					}
+					if !okT {
+						why = "the key is not the first element of the ancestry the table is built from"
+					}
 				default:
 					// GetAncestry(key)
 					for _, rt := range roots(arg, f) {
